@@ -68,9 +68,17 @@ def plan(ch, tier):
         kinds += [("lock_shot", 4), ("lock_eject", 2)]
     if TOPOLOGIES[topo]["manual"]:
         kinds += [("plunge", 5)]
+    bs_mode = topo == "t5" and ch.flag("bs_mode", 0.4)
     if topo == "t5":
         # ball save: several balls in play and drains close together (inside the save's eject delay)
         kinds += [("double_drain", 5), ("add_ball", 4)]
+        if bs_mode:
+            # a mode-scoped ball save with delayed_eject_events (the machine-wide save is off in these runs): a saved
+            # ball is owed until the release event or the end of the mode
+            kinds += [("bs_mode_start", 4), ("bs_mode_stop", 3), ("bs_release", 2)]
+    if topo == "t2":
+        # a multiball whose ball_locks is the lock device; starts also while the lock is kicking a ball out
+        kinds += [("mb_start", 4)]
     if "trough_b" in TOPOLOGIES[topo]:
         kinds += [("drain_b", 4), ("add_ball_b", 3), ("request_both", 2)]
     for i in range(n):
@@ -97,7 +105,7 @@ def plan(ch, tier):
         ops[0]["op"] = ch.pick("lane_first_op", ["plunge", "wait"])
         ops[0]["dt"] = ch.pick("lane_first_dt", [5.0, 0.5, 12.0])
     return {"knobs": knobs, "world": wk, "topo": topo, "nballs": nb, "ops": ops, "patches": patches, "react": react,
-            "hold": hold, "lane_ball": lane_ball, "oversub": oversub}
+            "hold": hold, "lane_ball": lane_ball, "oversub": oversub, "bs_mode": bs_mode}
 
 
 def execute(ctx, plan, prop):
@@ -111,6 +119,8 @@ def execute(ctx, plan, prop):
         start_sw[-1] = "s_plunger"
         # the lane counts as a home position: the ball may stay there, nothing is queued until the player plunges
         patches["ball_devices"] = {"bd_plunger": {"tags": "home"}}
+    if plan.get("bs_mode"):
+        patches["ball_saves"] = {"bs": {"enable_events": "bs_main_enable_never_posted"}}
     patches["virtual_platform_start_active_switches"] = ", ".join(start_sw)
     sim = ctx.new_sim(topo["machine"], platform="simhw", patches=patches, unit_test=False)
     sim.loop.stall_enabled = False
@@ -316,6 +326,27 @@ def execute(ctx, plan, prop):
             if d.balls > 0:
                 ctx.probe("lock_release")
                 d.eject(1)
+        elif k == "mb_start":
+            if m.game is not None and can_add():
+                lock = m.ball_devices[topo["locks"][0]]
+                if op["pick"] == 0 and lock.balls > 0:
+                    # the lock is kicking out a ball (not for the multiball) when the multiball starts
+                    ctx.probe("multiball_start_during_lock_eject")
+                    lock.eject(1)
+                    sim.run([0.0, 0.02, 0.3][int(op["dt"] * 100) % 3])
+                ctx.probe("multiball_start")
+                m.events.post("mb_start")
+        elif k == "bs_mode_start":
+            if m.game is not None:
+                m.events.post("start_m_bs")
+        elif k == "bs_mode_stop":
+            if m.modes["m_bs"].active:
+                ctx.probe("bs_mode_stopped")
+                if getattr(m.ball_saves["bs_mode"], "_scheduled_balls", 0):
+                    ctx.probe("bs_mode_stopped_with_ball_owed")
+            m.events.post("stop_m_bs")
+        elif k == "bs_release":
+            m.events.post("bs_release")
         elif k == "plunge":
             if world.plunge(topo["manual"][0]):
                 ctx.probe("manual_plunge")
@@ -363,6 +394,8 @@ def execute(ctx, plan, prop):
         for name in topo["manual"]:
             if world.count(name) and m.ball_devices[name].state in ("ejecting", "waiting_for_ball_left", "ball_left"):
                 world.plunge(name)
+        if plan.get("bs_mode"):
+            m.events.post("bs_release")     # nothing waits for the release event for ever
         stable = world.at_rest() and all(d.state == "idle" or d.name in broken or starved(d) for d in devices)
         quiet = quiet + 1.0 if stable else 0.0
         if quiet >= 8.0:
@@ -418,10 +451,11 @@ def execute(ctx, plan, prop):
         if have:
             viol("request_not_served", "queued_request", "at rest %s still has %d queued ball request(s) while its source(s) %r "
                  "physically hold a ball; world=%r" % (d.name, d.requested_balls, have, world.summary()))
-    if m.game is not None and not broken and not topo["locks"] and not world.ambiguous_reentries and "trough_b" not in topo:
+    if m.game is not None and not broken and not world.ambiguous_reentries and "trough_b" not in topo:
         # every ball the game counts as in play was requested for the playfield; once the world is at rest they must
-        # all have been delivered (or wait at a manual plunger), as long as balls were available for them
-        waiting = sum(world.count(n) for n in topo["manual"])
+        # all have been delivered (or wait at a manual plunger, or sit in a lock that keeps what it catches), as long
+        # as balls were available for them
+        waiting = sum(world.count(n) for n in topo["manual"]) + sum(world.count(n) for n in topo["locks"])
         in_devices = sum(world.count(d.name) for d in devices) - waiting
         owed = m.game.balls_in_play - loose - waiting
         if owed > 0 and in_devices > 0:
